@@ -79,6 +79,8 @@ def gen_algebra(draw, tier="quick"):
         "cls": cls,
         "len_scale": draw(logfloat(0.1, 10)),
         "t": draw(logfloat(0.05, 5)),
+        # ratios / angles handed over as lists, or as float arrays that the caller fills with other numbers afterwards
+        "arg_form": draw(st.sampled_from(["list", "list", "array_reused", "array_reused_exact_len"])),
     }
 
 
@@ -86,15 +88,27 @@ def check_algebra(case, rec):
     dim = case["dim"]
     rec.label(f"dim{dim}")
     tags = {"dim": dim}
+    form = case.get("arg_form", "list")
+    a_arg, g_arg = case["anis"], case["angles"]
+    if form != "list":
+        if form == "array_reused_exact_len" and dim > 1:
+            # exactly dim - 1 ratios and the full set of angles (nothing to pad)
+            a_arg = [float(v) for v in geo.pad_anis(dim, case["anis"])]
+            g_arg = [float(v) for v in geo.pad_angles(dim, case["angles"])]
+        a_arg, g_arg = np.array(a_arg, dtype=np.double), np.array(g_arg, dtype=np.double)
+        rec.label("ratios_and_angles_as_reused_arrays")
     model = lib(
         getattr(gs, case["cls"]),
         dim=dim,
         len_scale=case["len_scale"],
-        anis=case["anis"],
-        angles=case["angles"],
+        anis=a_arg,
+        angles=g_arg,
         _what="model construction",
         _tags=tags,
     )
+    if form != "list":
+        a_arg[...] = 123.0
+        g_arg[...] = 0.77
     pos = np.array(case["pos"], dtype=float).reshape(dim, -1)
     scale = max(1.0, float(np.max(np.abs(pos))))
     anis_o = geo.pad_anis(dim, case["anis"])
